@@ -165,6 +165,19 @@ def step (_ : Unit) (ws : List String) : Unit × String :=
         | .ok d => ((), if d = .raw 0 then "ok same" else "ok different")
         | .error e => ((), s!"err {getErrName e}")
     | _, _, _, _ => ((), "bad-op")
+  | "bound" :: rest =>
+    -- the size of the largest content chunk is the third-party crate's (witness `big`); whether the data-map chunk
+    -- fits is decided by the model of the pack loop
+    match (field "max" rest).bind String.toNat?, (field "len" rest).bind String.toNat?, (field "tab" rest).bind parseTab,
+          (field "big" rest).bind String.toNat? with
+    | some max, some len, some tab, some big =>
+      let S := symSE (packEnv len tab)
+      match encrypt S max fuel (.raw 0) with
+      | .error _ => ((), "err selfenc")
+      | .ok (dmc, _) =>
+        let dm := if S.len dmc.value ≤ max then "fits" else "over"
+        ((), if big > max then s!"content over={big - max} dm={dm}" else s!"content within dm={dm}")
+    | _, _, _, _ => ((), "bad-op")
   | "put" :: rest =>
     match (field "max" rest).bind String.toNat?, (field "len" rest).bind String.toNat?, (field "tab" rest).bind parseTab,
           field "entry" rest with
